@@ -69,6 +69,16 @@ def run(ctx):
         if msg:
             ctx.violation("loaded program differs from the denotation: " + msg,
                           {"kind": "script", "script": script, "text": text})
+    # ranges whose bounds lie around 2**63 and 2**64: the loop values are those integers, exactly
+    for _ in range(ctx.n(12, 120)):
+        b = ctx.rng.choice([2 ** 63 - 3, 2 ** 63, 2 ** 63 + 5, 2 ** 64 - 2, 2 ** 64 + 1, 2 ** 62 + 7])
+        step = ctx.rng.choice(["", ":2"])
+        text = "name r\nversion 1.0\n\nfor int m in %d:%d%s\n    G(m, k=m) | 0\nH | 1\n" % (b, b + 5, step)
+        ctx.count("range-around-2**63")
+        ctx.case(text, nontrivial=True)
+        msg = common.model_oracle(text)
+        if msg:
+            ctx.violation("range loop: " + msg, {"kind": "model_oracle", "text": text})
     # interaction stream: items sharing a tiny pool of names (redeclarations, indexing between two declarations of
     # one array, an empty loop before a loop over the same variable, shadowing, mixed target options)
     common.interaction_stream(ctx, ctx.n(300, 4000))
